@@ -3,6 +3,7 @@ package main
 // Path-wise symbolic execution of go/ssa (NaiveForm) functions.
 
 import (
+	"sort"
 	"fmt"
 	"go/constant"
 	"go/token"
@@ -55,6 +56,8 @@ type Exec struct {
 	chanKeys map[string]string
 	ghostLetNames map[string]bool
 	ghostLetTypes map[string]types.Type
+	inObjInv bool
+	curDefer *ssa.Defer
 }
 
 type EntryInfo struct {
@@ -75,7 +78,7 @@ func (x *Exec) oblige(st *State, kind, name string, goal *Term, pos token.Pos, c
 		return
 	}
 	for _, a := range st.PC {
-		if a == goal || (len(a.String()) < 2000 && a.String() == goal.String()) {
+		if same(a, goal) {
 			x.Obls = append(x.Obls, &Obligation{Name: full, Kind: kind, Func: x.V.P.FuncKey(x.Fn), Goal: goal, Pos: x.V.P.Pos(pos), Clause: clause, Status: "discharged", Backend: "syntactic", Syntactic: true})
 			return
 		}
@@ -269,6 +272,10 @@ func (x *Exec) instr(st *State, fr *Frame, in ssa.Instruction) {
 		if ns := namedStruct(et); ns != nil {
 			ref := st.newRef(sanitize(ns.Obj().Name()))
 			st.storePath(ns, ref, "", et, zeroVal(et))
+			initWaitGroups(st, ns, ref)
+			x.initGhostFields(st, ns, ref)
+			st.FreshTypes = copyFreshTypes(st.FreshTypes)
+			st.FreshTypes[ref.Op] = ns
 			fr.Regs[i] = &Val{T: i.Type(), Term: ref}
 			return
 		}
@@ -428,6 +435,15 @@ func (x *Exec) instr(st *State, fr *Frame, in ssa.Instruction) {
 		st.setGhostArr("closed", Store(st.ghostArr("closed", SBool), r, False))
 		st.setGhostArr("clen", Store(st.ghostArr("clen", SInt), r, IntLit(0)))
 		st.setGhostArr("ccap", Store(st.ghostArr("ccap", SInt), r, sz.Term))
+		co := False
+		if x.FC != nil && len(st.Frames) == 1 {
+			for _, cl := range x.FC.Of("ghost") {
+				if strings.HasPrefix(cl.Text, "closeonly ") && storedInto(i, strings.TrimPrefix(cl.Text, "closeonly ")) {
+					co = True // ghost mark: a channel that is only ever closed (every send site proves it is not one of these)
+				}
+			}
+		}
+		st.setGhostArr("closeonly", Store(st.ghostArr("closeonly", SBool), r, co))
 		fr.Regs[i] = &Val{T: i.Type(), Term: r}
 	case *ssa.MakeSlice:
 		ln := x.val(st, fr, i.Len)
@@ -672,9 +688,19 @@ func (x *Exec) store(st *State, p *Val, v *Val, pos token.Pos, in ssa.Instructio
 	case p.Cell != nil:
 		st.Cells[p.Cell] = v
 	case p.FP != nil:
+		if tc := x.V.C.Types[typeName(p.FP.Root)]; tc != nil && !st.FreshRefs[p.FP.Base.Op] {
+			for _, m := range tc.Monitors {
+				if m.CloseOnly[p.FP.Path[0]] {
+					x.failHard(st, "guarded", fmt.Sprintf("guarded:%s:never-reassigned#%d", p.FP.Path[0], x.site(st, "reassign:"+p.FP.Path[0])), pos, "store to "+tc.Name+"."+p.FP.Path[0]+", declared never to be reassigned once shared")
+				}
+			}
+		}
 		x.guardCheck(st, p.FP, true, pos)
 		st.storePath(p.FP.Root, p.FP.Base, strings.Join(p.FP.Path, "."), p.FP.T, x.toHeapVal(st, v, p.FP.T))
 		x.checkStrong(st, p.FP.Root, p.FP.Base, "store:"+p.FP.Path[0], pos)
+		if !st.FreshRefs[p.FP.Base.Op] && x.objInvMentions(p.FP.Root, p.FP.Path[0]) {
+			x.checkObjInvs(st, p.FP.Root, p.FP.Base, "store:"+p.FP.Path[0], pos)
+		}
 	case p.EP != nil:
 		if len(p.EP.Path) > 0 {
 			ev := st.loadElem(p.EP.Elem, p.EP.Base, p.EP.Idx)
@@ -731,6 +757,55 @@ func (x *Exec) toHeapVal(st *State, v *Val, t types.Type) *Val {
 }
 
 // fpAddr: the address of a field as a reference term (identity only; used for locks, waitgroups).
+// initGhostFields: the declared ghost fields of a fresh object start at their zero value.
+func (x *Exec) initGhostFields(st *State, ns *types.Named, ref *Term) {
+	tc := x.V.C.Types[typeName(ns)]
+	if tc == nil {
+		return
+	}
+	var names []string
+	for n := range tc.GhostFields {
+		names = append(names, n)
+	}
+	sort.Strings(names)
+	for _, n := range names {
+		srt, _ := x.V.ghostFieldSort(ns, n)
+		key := heapKeyField(ns, "#"+n)
+		h := st.heapGet(key, ArrSort(SInt, srt))
+		st.Heap[key] = Store(h, ref, zeroLeaf(srt))
+	}
+}
+
+func copyFreshTypes(m map[string]*types.Named) map[string]*types.Named {
+	n := map[string]*types.Named{}
+	for k, v := range m {
+		n[k] = v
+	}
+	return n
+}
+
+// initWaitGroups: the zero value of a sync.WaitGroup (the object itself or a direct field of a fresh struct) counts 0.
+func initWaitGroups(st *State, ns *types.Named, ref *Term) {
+	zero := func(r *Term) {
+		st.setGhostArr("wg", Store(st.ghostArr("wg", SInt), r, IntLit(0)))
+		st.setGhostArr("wgmine", Store(st.ghostArr("wgmine", SInt), r, IntLit(0)))
+	}
+	if typeName(ns) == "sync.WaitGroup" {
+		zero(ref)
+		return
+	}
+	stt, ok := ns.Underlying().(*types.Struct)
+	if !ok {
+		return
+	}
+	for k := 0; k < stt.NumFields(); k++ {
+		f := stt.Field(k)
+		if typeName(f.Type()) == "sync.WaitGroup" {
+			zero(fpAddr(&FieldPtr{Base: ref, Root: ns, Path: []string{f.Name()}, T: f.Type()}))
+		}
+	}
+}
+
 func fpAddr(fp *FieldPtr) *Term {
 	return UF("addr$"+typeName(fp.Root)+"$"+strings.Join(fp.Path, "."), SInt, fp.Base)
 }
@@ -991,6 +1066,21 @@ type boxSig struct {
 
 var boxRegistry = map[string]*boxSig{}
 
+// storedInto: the value is stored into the local variable of that name.
+func storedInto(v ssa.Value, name string) bool {
+	if v.Referrers() == nil {
+		return false
+	}
+	for _, r := range *v.Referrers() {
+		if s, ok := r.(*ssa.Store); ok && s.Val == v {
+			if a, ok := s.Addr.(*ssa.Alloc); ok && a.Comment == name {
+				return true
+			}
+		}
+	}
+	return false
+}
+
 // boxTerm builds the interface value holding v (of static type `from`). The axioms of box terms
 // (non-nil, dynamic type, unboxing) are added per ground occurrence when a query is printed.
 func boxTerm(ts []*Term, from types.Type) *Term {
@@ -1027,8 +1117,8 @@ func boxAxioms(ts []*Term) []*Term {
 			walk(a)
 		}
 		if (t.Kind == kUF || t.Kind == kConst) && !t.hasBV {
-			if bs, ok := boxRegistry[t.Op]; ok && !done[t.String()] {
-				done[t.String()] = true
+			if bs, ok := boxRegistry[t.Op]; ok && !done[t.Key()] {
+				done[t.Key()] = true
 				out = append(out, Gt(t, IntLit(0)), Eq(dynType(t), bs.TypeID))
 				for k := range bs.Paths {
 					if k < len(t.Args) {
